@@ -15,6 +15,9 @@ CONFIGS = {
     "quick": [("TdmsScaling", "TdmsScaling.cfg", {"MaxScales": 2, "RawTypes": '{"int16", "uint8", "float32"}'}),
               ("TdmsScaling", "TdmsScaling.cfg", {"MaxScales": 1, "RawTypes": '{"int32", "float64"}', "Shadow": "{TRUE}",
                                                   "UnaryKinds": '{"Linear", "NoOp"}', "BinaryKinds": "{}"}),
+              # levels that define scalings of different sizes (a level is taken whole, never merged with another)
+              ("TdmsScaling", "TdmsScaling.cfg", {"MaxScales": 2, "RawTypes": '{"int16"}', "Shadow": "{TRUE}",
+                                                  "UnaryKinds": '{"Linear"}', "BinaryKinds": '{"Add"}'}),
               # DAQmx: two raw scalers (ids 0, 1) of differing types and up to two scales stacked on them
               ("TdmsScaling", "TdmsScaling.cfg", {"MaxScales": 1, "RawTypes": '{"int16"}', "UnaryKinds": '{"Linear", "NoOp"}',
                                                   "Levels": '{"channel"}', "DaqTypes": '{"int16", "uint8", "float32"}',
